@@ -307,7 +307,9 @@ def _safe_interp(e, f, ctx, depth=0):
         if d == "repr":
             return True, "repr()"
         if d in SANITISER_FUNCS:
-            return True, f"escaping emitter {d}"
+            if len(e.args) == 1 and isinstance(e.args[0], ast.Attribute) and not e.keywords:
+                return True, f"escaping emitter {d} applied to the attribute itself"
+            return False, f"{d}() is applied to a transformed value, not to the attribute itself"
         if isinstance(e.func, ast.Attribute) and e.func.attr == "python" and not e.args:
             return True, ".python() of a checked emitter"
         if isinstance(e.func, ast.Attribute) and e.func.attr == "join":
@@ -542,3 +544,62 @@ def k7(ctx, res):
             ok = has(f"if {k} in schema:\n    schema[{k}] = _parse_literal(schema[{k}])", n.body)
     res.check(ok, pe, "for literal_key in ('default', 'const', 'enum'): schema[k] = _parse_literal(schema[k])",
               reason="exactly the three literal keywords are cleaned, and only when present")
+
+
+# ---------------------------------------------------------------------- K8
+@rule("K8", "the parser builds a new element for every schema occurrence (nothing cached or shared that is later written)")
+def k8(ctx, res):
+    from . import effects
+    ef = ctx.get("effects", effects.build)
+    parser = ctx.prog.by_relpath.get("statham/schema/parser.py")
+    inf = ctx.inf
+    n = 0
+    for f in sorted(parser.funcs.values(), key=lambda f: f.qualname):
+        if not (f.name.startswith("_parse") or f.name in ("parse_element", "_compose_elements")):
+            continue
+        if f.name in ("_parse_attribute_name", "_parse_literal"):
+            continue
+        params = {p.name for p in f.params}
+        for node in walk_own(f.body):
+            if not isinstance(node, ast.Return) or node.value is None:
+                continue
+            e = node.value
+            n += 1
+            # delegation to another parser function
+            if isinstance(e, ast.Call):
+                callees = [s.callee for s in inf.sites(f)[0] if s.node is e and s.kind == "call"]
+                if callees and all(c.module is parser and (c.name.startswith("_parse") or c.name in ("parse_element", "_compose_elements", "_wrapper", "dedupe"))
+                                   or c.short == "reraise._decorator._wrapper" for c in callees):
+                    res.ok(f, node, reason="delegates to another parser function")
+                    continue
+            # pass-through of a parameter or of a member of one
+            base = e
+            while isinstance(base, ast.Subscript):
+                base = base.value
+            if isinstance(base, ast.Name) and base.id in params:
+                res.ok(f, node, reason="hands back (a member of) its own argument")
+                continue
+            def is_delegation(x):
+                if not isinstance(x, ast.Call):
+                    return False
+                cs = [s_.callee for s_ in inf.sites(f)[0] if s_.node is x and s_.kind == "call"]
+                return bool(cs) and all((c.module is parser and (c.name.startswith("_parse") or c.name in (
+                    "parse_element", "_compose_elements", "dedupe"))) or c.short == "reraise._decorator._wrapper" for c in cs)
+            if isinstance(e, ast.Name) and e.id in f.locals():
+                vals = []
+                for b in inf.bindings(f).get(e.id, []):
+                    if b[0] == "assign" and is_delegation(b[1]):
+                        continue
+                    if b[0] == "assign":
+                        vals.append(ef.val(b[1], f))
+                    else:
+                        vals.append(ef.val(e, f))
+                v = effects.joinall(vals) if vals else effects.FRESHV
+            else:
+                v = ef.val(e, f)
+            shared = {a for a in v.own if a != effects.F}
+            only_schema = all(isinstance(a, tuple) and a[1].params[a[2]].name in ("schema", "literal", "elements", "type_list") for a in shared)
+            res.check(not shared or only_schema, f, node, detail={"owner": effects.fmt_atoms(v.own)},
+                      reason="the returned element is built in this call (fresh) - not taken from the parse state or a "
+                             "module-level cache, where a later `element.default = ...` would leak into unrelated elements")
+    res.floor("parser_returns", n, 25)
